@@ -178,16 +178,17 @@ fn run_f40(tracer: &Tracer) {
 
 /// a commit that wrote a delete file fails while replacing meta.json; the writer is rolled back and
 /// the SAME transaction is issued again: it draws the same opstamps, so the same delete-file name
-fn run_reuse(tracer: &Tracer, how: &str) {
+fn run_reuse(tracer: &Tracer, how: &str, retry_term: &str) {
     tracer.reset_canon();
-    let mut cfg = Cfg::default();
-    cfg.flush_after = 1;
-    tracer.emit(json!({"ev":"reset","cfg":cfg.to_json(),"tag":{"reuse":how}}));
+    // one segment holding all documents: both transactions write <that segment>.<opstamp>.del
+    let cfg = Cfg::default();
+    tracer.emit(json!({"ev":"reset","cfg":cfg.to_json(),"tag":{"reuse":how,"retry":retry_term}}));
     let mut w = World::new_quiet(tracer, &cfg, false);
     install_sink(tracer, w.regs.clone(), None);
     w.exec(&json!({"op":"new_writer"}));
     w.exec(&json!({"op":"add","id":1,"t":"a","v":0}));
     w.exec(&json!({"op":"add","id":2,"t":"b","v":0}));
+    w.exec(&json!({"op":"add","id":3,"t":"c","v":0}));
     w.exec(&json!({"op":"commit"}));
     // a fresh writer: its stamper starts at the committed opstamp, as the one after the failure will
     w.exec(&json!({"op":"drop_writer"}));
@@ -204,10 +205,12 @@ fn run_reuse(tracer: &Tracer, how: &str) {
         w.exec(&json!({"op":"drop_writer"}));
         w.exec(&json!({"op":"new_writer"}));
     }
-    w.exec(&json!({"op":"del","pred":{"k":"term","t":"a"}}));
+    // the transaction is issued again (same opstamps, same delete-file name) - with the same delete,
+    // or with ANOTHER one: the left-over file of the failed commit must not be what gets published
+    w.exec(&json!({"op":"del","pred":{"k":"term","t":retry_term}}));
     w.exec(&json!({"op":"commit"}));
     w.exec(&json!({"op":"reload"}));
-    w.exec(&json!({"op":"add","id":3,"t":"c","v":0}));
+    w.exec(&json!({"op":"add","id":4,"t":"c","v":0}));
     w.exec(&json!({"op":"commit"}));
     w.exec(&json!({"op":"wait_merges"}));
     w.exec(&json!({"op":"observe"}));
@@ -225,8 +228,11 @@ fn main() {
     let wl = workloads();
     std::panic::set_hook(Box::new(|_| {}));
     if a.pos.get(0).map(|s| s.as_str()) == Some("reuse") {
-        run_reuse(&tracer, "rollback");
-        run_reuse(&tracer, "reopen");
+        for how in ["rollback", "reopen"] {
+            for retry_term in ["a", "b"] {
+                run_reuse(&tracer, how, retry_term);
+            }
+        }
         tracer.flush();
         return;
     }
